@@ -13,6 +13,7 @@ package main
 
 import (
 	"bytes"
+	"encoding/base64"
 	"fmt"
 	"io"
 	"strings"
@@ -96,6 +97,31 @@ func mentionsForeign(ps []control.Paragraph) string {
 		}
 	}
 	return ""
+}
+
+// sigBytesDiffer decodes two armor bodies and reports whether the signature
+// packet differs beyond its tag and length octets (x/crypto tolerates other
+// length values) - a base64 character can change without changing any decoded
+// byte (the unused low bits of the last character before the padding).
+func sigBytesDiffer(a, b []byte) bool {
+	dec := func(x []byte) []byte {
+		s := strings.NewReplacer("\n", "", "\r", "").Replace(string(x))
+		out, err := base64.StdEncoding.DecodeString(s)
+		if err != nil {
+			out, _ = base64.RawStdEncoding.DecodeString(strings.TrimRight(s, "="))
+		}
+		return out
+	}
+	da, db := dec(a), dec(b)
+	if len(da) != len(db) {
+		return true
+	}
+	for i := 3; i < len(da); i++ {
+		if da[i] != db[i] {
+			return true
+		}
+	}
+	return false
 }
 
 func isBlankByte(b byte) bool { return b == ' ' || b == '\t' || b == '\r' || b == '\n' }
@@ -188,10 +214,9 @@ func runC11(r *rt.Run, tier string) {
 					mustFail, either = true, false
 					fault = "substitution/text"
 					r.Probe("substitution-in-signed-text")
-				} else if inB64 && p >= sigBodyStart+4 && strings.IndexByte(b64chars, old) >= 0 && strings.IndexByte(b64chars, nb) >= 0 {
-					// (the first four base64 characters hold the packet tag and its
-					// length octets; x/crypto tolerates other length values, which
-					// changes nothing about what is signed, so they are soundness-only)
+				} else if inB64 && strings.IndexByte(b64chars, old) >= 0 && strings.IndexByte(b64chars, nb) >= 0 && sigBytesDiffer(armored[sigBodyStart:crcStart], data[sigBodyStart:crcStart]) {
+					// (must-fail only when decoded signature bytes beyond the packet tag
+					// and length octets really differ)
 					mustFail, either = true, false
 					fault = "substitution/signature-base64"
 					r.Probe("substitution-in-signature-armor")
